@@ -373,6 +373,10 @@ Proof.
   rewrite Hstk in Hg. cbn in Hg. specialize (Hg ltac:(lia)).
   destruct (entry_go fs root fuel (m_imports m) (ss_st ss) (ss_names ss) []) as [[st acc]| |]; auto.
   destruct Hg as (Hi & Hs & He). cbn.
+  destruct (m_fault m =? 1).
+  { (* rejected after its imports loaded *)
+    split; [apply (d_tnodup _ _ Hi) | split; [| exact He]].
+    intros g Hg. split; [apply (d_towner _ _ Hi g Hg) | rewrite Hstk; intros []]. }
   set (ev := {| ev_file := name; ev_key := []; ev_aliases := fst acc; ev_known := _; ev_ns := _; ev_done := true |}).
   assert (Hmt : mtrace_of (events st ++ [ev]) = mtrace st).
   { rewrite mtrace_of_app. unfold mtrace_of at 2. cbn. rewrite app_nil_r. reflexivity. }
@@ -388,16 +392,14 @@ Qed.
 
 (* the session record is put back on the error path too (Extracted/ModulesTables.v, from repl.rs):
    what a failing input initialised stays known *)
-Lemma after_error_d : forall fs root ss s, errpost (ss_st ss) s ->
-  dinv fs (ss_st (after_error root ss s)) /\ stack (ss_st (after_error root ss s)) = [] /\
-  events (ss_st (after_error root ss s)) = events s.
+Lemma after_error_d : forall fs root ss s rej, errpost (ss_st ss) s ->
+  dinv fs (ss_st (after_error root ss s rej)) /\ stack (ss_st (after_error root ss s rej)) = [] /\
+  events (ss_st (after_error root ss s rej)) = events s.
 Proof.
-  intros fs root ss s (Hn & Ht & _). unfold after_error. cbn. split; [| auto]. split; cbn.
-  - constructor.
-  - intros k [].
-  - intros k [].
-  - exact Hn.
-  - intros g Hg. split; [apply (Ht g Hg) | intros []].
+  intros fs root ss s rej (Hn & Ht & _). unfold after_error.
+  destruct rej; cbn; (split; [| auto]); split; cbn;
+    [constructor | intros k [] | intros k [] | exact Hn | intros g Hg; split; [apply (Ht g Hg) | intros []]
+    |constructor | intros k [] | intros k [] | exact Hn | intros g Hg; split; [apply (Ht g Hg) | intros []]].
 Qed.
 
 Lemma run_session_d : forall fs root fuel inputs ss,
@@ -414,9 +416,10 @@ Proof.
       split.
       * intros x [<-|Hx]; [discriminate | apply Hnf; exact Hx].
       * rewrite He in Hnd. rewrite <- app_assoc in Hnd. exact Hnd.
-    + destruct (after_error_d fs root ss s Hi) as (Hinv' & Hstk' & Hev).
+    + set (rej := rejected_after_load fs root fuel m ss).
+      destruct (after_error_d fs root ss s rej Hi) as (Hinv' & Hstk' & Hev).
       destruct Hi as (_ & _ & [ext He]).
-      destruct (IH (after_error root ss s) Hinv' Hstk' Hf) as [Hnf Hnd]. cbn. rewrite He, skipn_app_length.
+      destruct (IH (after_error root ss s rej) Hinv' Hstk' Hf) as [Hnf Hnd]. cbn. rewrite He, skipn_app_length.
       split.
       * intros x [<-|Hx]; [discriminate | apply Hnf; exact Hx].
       * rewrite Hev, He in Hnd. rewrite <- app_assoc in Hnd. exact Hnd.
